@@ -562,8 +562,24 @@ func c20Levels(tier string) []core.Level {
 					src := pre + it.src
 					toks := stokens(src)
 					inVerb := false
+					// tokens of an endverbatim tag: the tag is recognised lexically as a whole, junk inside it
+					// legitimately turns it into verbatim text (the section is then unclosed)
+					endTag := map[int]bool{}
 					for i, t := range toks {
-						if t.off < len(pre) {
+						if t.kind == kOpen && t.in == "{%" {
+							j := i + 1
+							for j < len(toks) && toks[j].kind == kWS {
+								j++
+							}
+							if j < len(toks) && toks[j].text == "endverbatim" {
+								for k := i; k < len(toks) && (k == i || toks[k-1].kind != kClose); k++ {
+									endTag[k] = true
+								}
+							}
+						}
+					}
+					for i, t := range toks {
+						if t.off < len(pre) || (endTag[i] && t.kind != kOpen) {
 							continue
 						}
 						if t.kind == kWord && t.in == "{%" && (t.text == "verbatim" || t.text == "endverbatim") {
